@@ -283,11 +283,13 @@ def registry_residue(w, i):
         return live.get(getattr(conn, 'handle', None)) is not conn
 
     gs = dev.gatt_server
-    if any(dead_bearer(b) for b in gs.subscribers):
+    # (tables that exist under these names; an implementation that keeps the same state elsewhere is judged by the
+    # behavioural clauses - the indication / subscription procedures after a reconnection)
+    if any(dead_bearer(b) for b in getattr(gs, 'subscribers', ())):
         out.append('gatt_server.subscribers')
-    if any(dead_bearer(b) and s.locked() for b, s in gs.indication_semaphores.items()):
+    if any(dead_bearer(b) and s.locked() for b, s in getattr(gs, 'indication_semaphores', {}).items()):
         out.append('gatt_server.indication_semaphores')
-    if any(dead_bearer(b) and f is not None for b, f in gs.pending_confirmations.items()):
+    if any(dead_bearer(b) and f is not None for b, f in getattr(gs, 'pending_confirmations', {}).items()):
         out.append('gatt_server.pending_confirmations')
     if any(h not in live or sess.connection is not live[h] for h, sess in dev.smp_manager.sessions.items()):
         out.append('smp_manager.sessions')
@@ -313,7 +315,7 @@ def soft_residue(w, i):
     live = dev.connections
     gs = dev.gatt_server
     n = 0
-    for reg in (gs.indication_semaphores, gs.pending_confirmations):
+    for reg in (getattr(gs, 'indication_semaphores', {}), getattr(gs, 'pending_confirmations', {})):
         for b in reg:
             conn = getattr(b, 'connection', b)
             if live.get(getattr(conn, 'handle', None)) is not conn:
